@@ -899,6 +899,17 @@ impl Worker {
                     )
                 }));
 
+                // Events written before the failure aren't part of the retry,
+                // so they need to be durable before the file is let go of
+                if batch.remaining_bytes != written_bytes {
+                    file.file
+                        .flush()
+                        .map_err(|e| emit_batcher::BatchError::no_retry(e))?;
+                    file.file
+                        .sync_all()
+                        .map_err(|e| emit_batcher::BatchError::no_retry(e))?;
+                }
+
                 return Err(emit_batcher::BatchError::retry(err, batch));
             }
 
